@@ -568,7 +568,7 @@ func (e *eng) check() {
 				reported[id] = true
 				e.s.Bad(rule, method+" / "+what, posOf(k), detail, e.describe(pa)...)
 			})
-			for _, r := range []string{"B1", "B2", "B3", "B4", "B5", "B6", "B7", "B8", "B9", "B10", "T1", "T2m"} {
+			for _, r := range []string{"B1", "B2", "B3", "B4", "B5", "B6", "B7", "B8", "B9", "B10", "B11", "T1", "T2m"} {
 				if !dirty[r] {
 					perMethod[method][r]++
 				}
@@ -598,12 +598,12 @@ func (e *eng) check() {
 	ruleText := map[string]string{
 		"B1": "every emitted instruction has operand kinds its VM handler accepts", "B2": "the code is stack neutral except for the announced result",
 		"B3": "jumps are patched exactly once into the node's own code; code is only appended", "B4": "the result descriptor tells where the value is",
-		"B5": "children are compiled in source order into the operand slots the VM reads them from", "B6": "conditions are tested by a conditional jump of the right polarity",
+		"B5": "children are compiled in source order into the operand slots the VM reads them from", "B6": "conditions are tested by a conditional jump of the right polarity", "B11": "the value of an assignment is computed, except for the increment of the assigned variable by the literal 1",
 		"B7": "debug info is keyed by the address of the CALL", "B8": "iterator context ids are created, resumed and destroyed consistently",
 		"B9": "tmp is read only while it still holds the value it was given", "B10": "operands address constants of the right type", "T1": "every emitted opcode has a VM handler", "T2m": "every operator lexeme is compiled to the opcode of the same name",
 	}
 	for _, m := range methods {
-		for _, r := range []string{"B1", "B2", "B3", "B4", "B5", "B6", "B7", "B8", "B9", "B10", "T1", "T2m"} {
+		for _, r := range []string{"B1", "B2", "B3", "B4", "B5", "B6", "B7", "B8", "B9", "B10", "B11", "T1", "T2m"} {
 			if r == "T2m" && !strings.Contains(m, "BinOp") && !strings.Contains(m, "UnOp") {
 				continue
 			}
